@@ -56,7 +56,7 @@ def run(res, pid, tier, protos=None):
             evals = 0
             for attempt in range(20):
                 p = subprocess.run([vdrive, "wire-run", "-in", os.path.join(d, "vec.ndjson"), "-out", out, "-summary", os.path.join(d, "sum.json"), "-skip", str(skip)],
-                                   capture_output=True, text=True, timeout=3000, preexec_fn=limit_as)
+                                   capture_output=True, text=True, timeout=3000, preexec_fn=limit_as, env=dict(os.environ, TMPDIR=d))
                 if p.returncode == 0:
                     evals += json.load(open(os.path.join(d, "sum.json")))["evaluations"]
                     return evals
